@@ -67,6 +67,7 @@ type World struct {
 
 	Invokes []*Invocation
 	actors  []*Actor
+	Eng     *Engine // the engine driving this world (last created)
 }
 
 var fixtureBase string
